@@ -1,7 +1,7 @@
 package handler
 
 // C02 — guards-only tier, built with -race: MaxConns -> TimeoutHandler ->
-// RecoverHandler -> MaxBytesHandler -> handler, composed by hand in the order
+// RecoverHandler -> MaxBytesHandler -> GunzipHandler -> handler, composed by hand in the order
 // engine.bindRoute fixes (no breaker, metrics or log handlers), one fresh
 // composition per route and case. Same cases, interpreter and oracle as the
 // full-chain tier (c02_common_test.go); one case in six leaves RecoverHandler out
@@ -26,6 +26,7 @@ func c02BuildGuards(c c02Case, h http.HandlerFunc) (func(int, http.ResponseWrite
 	var routes []http.Handler
 	for i := range c.R {
 		var hd http.Handler = h
+		hd = GunzipHandler(hd) // gzip request bodies reach the handler programs decompressed, as in the engine chain
 		hd = MaxBytesHandler(int64(c.maxBytes(i)))(hd)
 		if !c.NR {
 			hd = RecoverHandler(hd)
